@@ -2,7 +2,7 @@
    vm_compute: one JSON case in, one JSON observation out *)
 From Coq Require Import List NArith ZArith Bool.
 From D2P Require Import Str Err Json Xml TableTypes Tables Fmt NumFmt Bullets Merge
-     Collector Walk Iter Output Codec Paths Package Content Lifecycle Save Utilities.
+     Collector Walk Iter Output Codec Paths Package Content Lifecycle Save Utilities Fs.
 Import ListNotations.
 Open Scope N_scope.
 
@@ -204,6 +204,23 @@ Definition run_case (c : jt) : jt :=
       | Some s' => JL [jopt (fun ht => JL [jstr (fst ht); jstr (snd ht)]) (link_match s');
                        jbool (heading_match s')]
       | None => bad_case
+      end
+  | JL [JN 13; arch; folder; JL dirs; JL files] =>
+      (* save_images / image folder: the file system afterwards (model/Fs.v) *)
+      let dec_path t := match t with JL segs => map_opt get_str segs | _ => None end in
+      let dec_file t := match t with
+                        | JL [pth; JN b] => match dec_path pth with Some q => Some (q, b) | None => None end
+                        | _ => None
+                        end in
+      match dec_archive arch, get_opt dec_path folder, map_opt dec_path dirs, map_opt dec_file files with
+      | Some a, Some fo, Some ds, Some fl =>
+          let enc_path q := jlist jstr q in
+          enc_res (r <- pull_image_files (images a) fo {| fs_dirs := ds; fs_files := fl |} ;;
+                   Ok (JL [jlist (fun kv => JL [jstr (fst kv); JN (snd kv)]) (fst r);
+                           jopt (fun fs' => JL [jlist enc_path (fs_dirs fs');
+                                                jlist (fun pb => JL [enc_path (fst pb); JN (snd pb)]) (fs_files fs')])
+                                (snd r)]))
+      | _, _, _, _ => bad_case
       end
   | JL [JN 4; nested] =>
       match dec_rose_str nested with
